@@ -21,10 +21,10 @@ var SrvFields = []Field{
 	{"proto", []string{"nil", "all", "b", "none", "custom-all", "custom-b"}},
 	{"ext", []string{"nil", "all", "none", "custom-all", "negotiate-echo", "negotiate-decline", "negotiate-error", "negotiate-pmd", "negotiate-error-x", "negotiate-error-y"}},
 	{"header", []string{"nil", "one"}},
-	{"onrequest", []string{"nil", "ok", "err", "reject403"}},
-	{"onhost", []string{"nil", "ok", "err", "reject403"}},
-	{"onheader", []string{"nil", "ok", "err", "reject403"}},
-	{"onbefore", []string{"nil", "ok", "err", "reject403", "ok-header"}},
+	{"onrequest", []string{"nil", "ok", "err", "reject403", "err-list"}},
+	{"onhost", []string{"nil", "ok", "err", "reject403", "err-list"}},
+	{"onheader", []string{"nil", "ok", "err", "reject403", "err-list"}},
+	{"onbefore", []string{"nil", "ok", "err", "reject403", "ok-header", "err-list"}},
 }
 
 type SrvCfg []int
@@ -64,9 +64,17 @@ func cbErr(kind string) error {
 		return ErrCallback
 	case "reject403":
 		return RejectErr()
+	case "err-list":
+		return ErrList{"first problem", "second problem"}
 	}
 	return nil
 }
+
+// ErrList is an error whose dynamic type is not comparable (a slice), as validation code
+// that collects several problems returns.
+type ErrList []string
+
+func (e ErrList) Error() string { return strings.Join(e, "; ") }
 
 func acceptProto(kind string) func(string) bool {
 	switch kind {
@@ -213,7 +221,7 @@ func (c SrvCfg) Expect(r Req) SrvExpect {
 	e := SrvExpect{CallbackStatuses: map[int]bool{}}
 	status := func(kind string) {
 		switch kind {
-		case "err":
+		case "err", "err-list":
 			e.CallbackStatuses[500] = true
 		case "reject403":
 			e.CallbackStatuses[403] = true
